@@ -72,6 +72,15 @@ def faults_for(driver, cmd, final, tier):
     if driver == "udp":
         return list(UDP_RECV_FAULTS if final else UDP_SEND_FAULTS)
     fs = link_faults(driver)
+    if tier == "reach":                    # DriverErr tier "reach": the small sample used for the payload length kinds
+        if driver == "rcs380" and cmd in ("InCommRF", "TgCommRF"):
+            fs += [("CommStatus", m) for m in range(4097) if m >= 4095 or bin(m).count("1") <= 1]
+        if has_status(driver, cmd):
+            fs += [("ChipStatus", s) for s in (0, 1, 10, 11)]
+        if driver in PN53X_FAM and cmd in REG_READS:
+            dom = range(65) if cmd == "ReadFIFOLevel" else range(256)
+            fs += [("RegValue", s) for s in dom if s in QUICK_PREP_STATUS + (32, 48)]
+        return fs
     full = final or tier != "quick"
     if driver == "rcs380" and cmd in ("InCommRF", "TgCommRF"):
         fs += [("CommStatus", m) for m in (quick_masks() if tier == "quick" else range(4097))]
@@ -152,20 +161,30 @@ def walk(driver, tier, only_kinds=None):
     """-> list of batches (one per kind) of events."""
     rig = D.Rig(driver)
     batches = []
-    for kind in D.SUPPORT[driver]:
+    for kind in list(D.SUPPORT[driver]) + D.len_kinds(driver):
         if only_kinds and kind not in only_kinds:
             continue
         mode = D.KINDS[kind][0]
+        ftier = "reach" if kind in D.len_kinds(driver) else tier
         o, x, val = run_case(rig, kind, 0, None, None)
         names = list(rig.chip.log)
         ev = [dict(d=driver, k=kind, m=mode, at=0, c="-", f="None", v=0, o=o, x=x,
                    same=bool(o == "Data" and bytes(val) == D.expected_data(rig, kind)), cancel=LAST_CANCEL[0])]
+        if o != "Data" and D.base_kind(kind) != kind:
+            # the fault-free exchange of a length kind failed (judged by TLC at event 1): walk the command positions
+            # of the base kind, so that the structure still matches and every case gets its own verdict
+            if o in ("Hang", "Internal"):
+                rig = D.Rig(driver)
+            run_case(rig, D.base_kind(kind), 0, None, None)
+            names = list(rig.chip.log)
         n = len(names)
         for at in range(1, n + 1):
             cmd, final = names[at - 1], at == n
-            for (k, v) in faults_for(driver, cmd, final, tier):
+            for (k, v) in faults_for(driver, cmd, final, ftier):
                 o, x, val = run_case(rig, kind, at, k, v)
                 seen = rig.chip.log[at - 1] if len(rig.chip.log) >= at else "?"
+                if seen == "?" and o == "Internal":
+                    seen = cmd                         # the exchange raised before it got to this command: nothing to compare
                 if o in ("Hang", "Internal"):
                     rig = D.Rig(driver)                # do not trust the object's state any further
                 ev.append(dict(d=driver, k=kind, m=mode, at=at, c=seen, f=k, v=v, o=o, x=x,
@@ -325,6 +344,9 @@ def key_of(e, n):
     final = e["at"] == n
     f, o = e["f"], e["o"]
     out = o if o != "Internal" else e["x"]
+    if D.base_kind(e["k"]) != e["k"] and o in ("Internal", "NoData", "CommOther") and \
+            (f == "None" or e["x"] in ("ValueError", "AssertionError", "OverflowError")):
+        return "%s:%s:payload-length(%s)->%s" % (fam, e["m"], e["k"][2:], out)
     garble = f in ("ShortFrame", "CutTail", "BadChecksum", "Garbled")
     if o == "Hang":
         return "%s:send_command:no-answer->Hang" % fam
@@ -526,10 +548,18 @@ def replay(rep, args):
         names = list(rig.chip.log)
         ev = [dict(d=r["driver"], k=r["k"], m=mode, at=0, c="-", f="None", v=0, o=o, x=x,
                    same=bool(o == "Data" and bytes(val) == D.expected_data(rig, r["k"])), cancel=LAST_CANCEL[0])]
-        o, x, val = run_case(rig, r["k"], r["at"], r["f"], r["v"])
-        print("real outcome: %s %s %r" % (o, x, val))
-        ev.append(dict(d=r["driver"], k=r["k"], m=mode, at=r["at"], c=rig.chip.log[r["at"] - 1], f=r["f"], v=r["v"],
-                       o=o, x=x, same=False, cancel=LAST_CANCEL[0]))
+        if o != "Data" and D.base_kind(r["k"]) != r["k"]:      # a failing length kind: command positions of the base kind
+            rig = D.Rig(r["driver"])
+            run_case(rig, D.base_kind(r["k"]), 0, None, None)
+            names = list(rig.chip.log)
+        if r["at"] == 0:                                        # the stored case is the fault-free exchange itself
+            print("real outcome: %s %s" % (o, x))
+        else:
+            o, x, val = run_case(rig, r["k"], r["at"], r["f"], r["v"])
+            print("real outcome: %s %s %r" % (o, x, val))
+            seen = rig.chip.log[r["at"] - 1] if len(rig.chip.log) >= r["at"] else names[r["at"] - 1]
+            ev.append(dict(d=r["driver"], k=r["k"], m=mode, at=r["at"], c=seen, f=r["f"], v=r["v"],
+                           o=o, x=x, same=False, cancel=LAST_CANCEL[0]))
         bs = [dict(id="replay", slice=dict(d=r["driver"], k=r["k"], tier="thorough", n=len(names), cover=False), ev=ev)]
     verdicts, _ = tlc.validate_traces("Trace_DriverErr.tla", "Trace_DriverErr.cfg", PID + "_replay", bs, shards=1)
     bad = {k: v for k, v in verdicts.items() if v[0] != "ACCEPT"}
